@@ -4,10 +4,16 @@ import RQ.Model.Args
 
 In the model the options `-q`, `-v`, `--mmap`, `--stats`, `--color X`, `-A X` (with a value the tool
 accepts; other values are refused: `Inv.bad`, `Inv.badLate`) are recognised and dropped: the
-configuration handed to the driver has no field for them.  `C14_options` states this as a
-theorem about the option model: removing all of them from an invocation, wherever they stand — or
-adding any of them anywhere — gives the same configuration, hence (`C14_push`) the same outcome and the
-same world.  That the *code* behaves like this model — whose driver takes no presentation option at
+configuration handed to the driver has no field for them.  What is *not* indifferent is giving one of
+them twice: `getopts` refuses an option declared `optflag`/`optopt` that occurs more than once
+(`-q -q`, `--mmap --mmap`, `--color always --color never`; only `-v` and `-A` may repeat), exit
+status 1, nothing touched (`C14_repeated_refused`).  So the property is stated for invocations `getopts`
+accepts in this respect (`SingleOnce`, decidable): `C14_options` — removing all presentation options
+from such an invocation, wherever they stand, gives the same configuration, hence (`C14_push`) the same
+outcome and the same world; `C14_same` — two such invocations that differ only in presentation options
+(so also: adding any of them anywhere, as long as none of `-q`, `--mmap`, `--stats`, `--color` is there
+twice afterwards) behave the same.  The hypothesis is needed (`C14_needs_single_once`).  That the *code*
+behaves like this model — whose driver takes no presentation option at
 all — is what the correspondence run checks: every generated workspace is executed with random
 combinations of these options (incl. zero-length source and patch files, failing series) and must give
 the model's exit status and tree.
@@ -15,9 +21,10 @@ the model's exit status and tree.
 namespace RQ.Args
 open RQ RQ.Push
 
-/-- **C14 (options)**: presentation / loader options do not influence the parsed configuration -/
-theorem C14_options : ∀ (toks : List Tok) (i : Inv),
-    parse (toks.filter (fun t => !t.isPresentation)) i = parse toks i := by
+/-- the fold over the options (`parseOpts`: the part of `parse` after `getopts` has accepted the invocation)
+drops the presentation / loader options -/
+theorem parseOpts_filter : ∀ (toks : List Tok) (i : Inv),
+    parseOpts (toks.filter (fun t => !t.isPresentation)) i = parseOpts toks i := by
   intro toks
   induction toks with
   | nil => intro i; rfl
@@ -30,9 +37,9 @@ theorem C14_options : ∀ (toks : List Tok) (i : Inv),
         (t :: r).filter (fun t => !t.isPresentation) = r.filter (fun t => !t.isPresentation) := by
       intro h; simp [List.filter, h]
     cases t with
-    | threads n => rw [keep rfl]; simp only [parse]; split <;> exact ih _
+    | threads n => rw [keep rfl]; simp only [parseOpts]; split <;> exact ih _
     | backup x =>
-      rw [keep rfl]; simp only [parse]
+      rw [keep rfl]; simp only [parseOpts]
       split
       · exact ih _
       · split
@@ -41,47 +48,171 @@ theorem C14_options : ∀ (toks : List Tok) (i : Inv),
           · exact ih _
           · rfl
     | backupCount x =>
-      rw [keep rfl]; simp only [parse]
+      rw [keep rfl]; simp only [parseOpts]
       split
       · exact ih _
       · split
         · exact ih _
         · rfl
-    | fuzz n => rw [keep rfl]; simp only [parse, ih]
-    | dryRun => rw [keep rfl]; simp only [parse, ih]
-    | all => rw [keep rfl]; simp only [parse, ih]
-    | quiet => rw [drop rfl]; simp only [parse, ih]
-    | verbose => rw [drop rfl]; simp only [parse, ih]
-    | mmap => rw [drop rfl]; simp only [parse, ih]
-    | stats => rw [drop rfl]; simp only [parse, ih]
+    | fuzz n => rw [keep rfl]; simp only [parseOpts, ih]
+    | dryRun => rw [keep rfl]; simp only [parseOpts, ih]
+    | patchDir d => rw [keep rfl]; simp only [parseOpts, ih]
+    | all => rw [keep rfl]; simp only [parseOpts]; split <;> exact ih _
+    | quiet => rw [drop rfl]; simp only [parseOpts, ih]
+    | verbose => rw [drop rfl]; simp only [parseOpts, ih]
+    | mmap => rw [drop rfl]; simp only [parseOpts, ih]
+    | stats => rw [drop rfl]; simp only [parseOpts, ih]
     | color x =>
       cases hv : validColor x with
-      | true => rw [drop (by simp [Tok.isPresentation, hv])]; simp only [parse, hv, if_true, ih]
-      | false => rw [keep (by simp [Tok.isPresentation, hv])]; simp only [parse, hv]; rfl
+      | true => rw [drop (by simp [Tok.isPresentation, hv])]; simp only [parseOpts, hv, if_true, ih]
+      | false => rw [keep (by simp [Tok.isPresentation, hv])]; simp only [parseOpts, hv]; rfl
     | analyze x =>
       cases hv : validAnalysis x with
-      | true => rw [drop (by simp [Tok.isPresentation, hv])]; simp only [parse, hv, if_true, ih]
-      | false => rw [keep (by simp [Tok.isPresentation, hv])]; simp only [parse, hv, Bool.false_eq_true, if_false]; exact ih _
-    | free x => rw [keep rfl]; simp only [parse]; split <;> exact ih _
-    | unknown x => rw [keep rfl]; simp only [parse]
+      | true => rw [drop (by simp [Tok.isPresentation, hv])]; simp only [parseOpts, hv, if_true, ih]
+      | false => rw [keep (by simp [Tok.isPresentation, hv])]; simp only [parseOpts, hv, Bool.false_eq_true, if_false]; exact ih _
+    | free x =>
+      rw [keep rfl]; simp only [parseOpts]
+      split
+      · exact ih _
+      · split <;> exact ih _
+    | unknown x => rw [keep rfl]; simp only [parseOpts]
+
+/-- removing options from an invocation that repeats none of the single-occurrence options leaves such an
+invocation -/
+theorem SingleOnce.filter {toks : List Tok} (p : Tok → Bool) (h : SingleOnce toks) :
+    SingleOnce (toks.filter p) :=
+  List.Nodup.sublist (List.Sublist.filterMap _ List.filter_sublist) h
+
+theorem parse_of_singleOnce {toks : List Tok} (h : SingleOnce toks) (i : Inv) :
+    parse toks i = parseOpts toks i := by
+  simp [parse, dupSingle, h]
+
+theorem parse_of_not_singleOnce {toks : List Tok} (h : ¬ SingleOnce toks) (i : Inv) :
+    parse toks i = { i with bad := true } := by
+  simp [parse, dupSingle, h]
+
+/-- **C14 (options)**: in an invocation that `getopts` accepts (no `optflag`/`optopt` option given twice),
+presentation / loader options do not influence the parsed configuration -/
+theorem C14_options : ∀ (toks : List Tok) (i : Inv), SingleOnce toks →
+    parse (toks.filter (fun t => !t.isPresentation)) i = parse toks i := by
+  intro toks i h
+  rw [parse_of_singleOnce h, parse_of_singleOnce (h.filter _), parseOpts_filter]
 
 /-- **C14 (result)**: the push gives the same outcome and the same world with or without them -/
-theorem C14_push (toks : List Tok) (w : World) :
+theorem C14_push (toks : List Tok) (w : World) (h : SingleOnce toks) :
     pushToks (toks.filter (fun t => !t.isPresentation)) w = pushToks toks w := by
-  simp only [pushToks, C14_options]
+  simp only [pushToks, C14_options toks _ h]
 
-/-- two invocations that differ only in presentation options behave the same -/
-theorem C14_same (a b : List Tok) (w : World)
+/-- two invocations (neither repeating a single-occurrence option) that differ only in presentation options
+behave the same; in particular adding presentation options anywhere to `a`, giving `b`, changes nothing as long
+as `b` still has none of them twice -/
+theorem C14_same (a b : List Tok) (w : World) (ha : SingleOnce a) (hb : SingleOnce b)
     (h : a.filter (fun t => !t.isPresentation) = b.filter (fun t => !t.isPresentation)) :
     pushToks a w = pushToks b w := by
-  rw [← C14_push a, ← C14_push b, h]
+  rw [← C14_push a w ha, ← C14_push b w hb, h]
 
-example : (tokenize ["-q", "--mmap", "--backup", "always", "-v", "--color", "always", "-A", "multiapply", "--stats", "-a"]).filter
+/-- adding one presentation option anywhere: if the invocation is still accepted by `getopts`, nothing changes -/
+theorem C14_add (l₁ l₂ : List Tok) (t : Tok) (w : World) (ht : t.isPresentation = true)
+    (h : SingleOnce (l₁ ++ t :: l₂)) : pushToks (l₁ ++ t :: l₂) w = pushToks (l₁ ++ l₂) w := by
+  have h' : SingleOnce (l₁ ++ l₂) :=
+    List.Nodup.sublist (List.Sublist.filterMap _
+      (List.Sublist.append (List.Sublist.refl l₁) (List.sublist_cons_self t l₂))) h
+  apply C14_same _ _ w h h'
+  simp [List.filter_append, ht]
+
+/-- **C14 (repetition)**: an invocation that gives an `optflag`/`optopt` option more than once is refused,
+nothing is touched — also when the repeated option is a presentation option -/
+theorem C14_repeated_refused (toks : List Tok) (w : World) (h : ¬ SingleOnce toks) :
+    pushToks toks w = (.error, w) := by
+  simp [pushToks, parse_of_not_singleOnce h, pushInv]
+
+/-- `-q -q` -/
+example (w : World) : pushArgs ["-q", "-q"] w = (.error, w) :=
+  C14_repeated_refused _ w (by decide)
+
+/-- `-F 1 -F 2` (also in the spelling `-F 1 --fuzz 2`: the same option) -/
+example (w : World) : pushArgs ["-F", "1", "-F", "2"] w = (.error, w) :=
+  C14_repeated_refused _ w (by decide)
+
+example (w : World) : pushArgs ["-F", "1", "--fuzz", "2"] w = (.error, w) :=
+  C14_repeated_refused _ w (by decide)
+
+example (w : World) : pushArgs ["--mmap", "--mmap", "-a"] w = (.error, w) :=
+  C14_repeated_refused _ w (by decide)
+
+/-- `-v` and `-A` may repeat -/
+example : SingleOnce (tokenize ["-v", "-v", "-A", "multiapply", "-A", "multiapply", "-q"]) := by decide
+
+/-- the hypothesis of `C14_options` is needed: `-q -q` is refused, the same invocation without presentation
+options (no option at all) is not -/
+theorem C14_needs_single_once :
+    (parse ([Tok.quiet, Tok.quiet].filter (fun t => !t.isPresentation)) {}).bad = false ∧
+    (parse [Tok.quiet, Tok.quiet] {}).bad = true := by
+  decide
+
+/-- non-vacuity: an invocation with every presentation option, accepted by `getopts`; what is left without them -/
+example : SingleOnce (tokenize ["-q", "--mmap", "--backup", "always", "-v", "--color", "always", "-A", "multiapply", "--stats", "-a"]) ∧
+    (tokenize ["-q", "--mmap", "--backup", "always", "-v", "--color", "always", "-A", "multiapply", "--stats", "-a"]).filter
     (fun t => !t.isPresentation) = [.backup "always", .all] := by
   decide
 
+/-! ### the goal: the first free argument decides (`cmd::run`), wherever `-a` stands; further arguments are ignored -/
+
+/-- once the goal has been given as an argument, nothing behind it on the command line changes it -/
+theorem parseOpts_goal_fixed : ∀ (toks : List Tok) (i : Inv), i.goalFromArg = true →
+    (parseOpts toks i).cfg.goal = i.cfg.goal ∧ (parseOpts toks i).goalFromArg = true := by
+  intro toks
+  induction toks with
+  | nil => intro i h; exact ⟨rfl, h⟩
+  | cons t r ih =>
+    intro i h
+    cases t with
+    | threads n => simp only [parseOpts]; split <;> exact ih _ h
+    | backup x =>
+      simp only [parseOpts]
+      split
+      · exact ih _ h
+      · split
+        · exact ih _ h
+        · split
+          · exact ih _ h
+          · exact ⟨rfl, h⟩
+    | backupCount x =>
+      simp only [parseOpts]
+      split
+      · exact ih _ h
+      · split
+        · exact ih _ h
+        · exact ⟨rfl, h⟩
+    | fuzz n => simp only [parseOpts]; exact ih _ h
+    | patchDir d => simp only [parseOpts]; exact ih _ h
+    | dryRun => simp only [parseOpts]; exact ih _ h
+    | all => simp only [parseOpts, h, if_true]; exact ih _ h
+    | quiet => simp only [parseOpts]; exact ih _ h
+    | verbose => simp only [parseOpts]; exact ih _ h
+    | mmap => simp only [parseOpts]; exact ih _ h
+    | stats => simp only [parseOpts]; exact ih _ h
+    | color x => simp only [parseOpts]; split; exact ih _ h; exact ⟨rfl, h⟩
+    | analyze x => simp only [parseOpts]; split <;> exact ih _ h
+    | free x => simp only [parseOpts, h, if_true]; exact ih _ h
+    | unknown x => simp only [parseOpts]; exact ⟨trivial, h⟩
+
+/-- **the first free argument is the goal**: a number (as `str::parse::<usize>` reads it) means that many
+patches, anything else the patch to push up to — whatever follows it (`-a`, more arguments) -/
+theorem C14_goal_first_arg (x : String) (r : List Tok) (i : Inv) (h : i.goalFromArg = false) :
+    (parseOpts (.free x :: r) i).cfg.goal =
+      (match usizeOf x with | some n => Goal.count n | none => Goal.upTo x.toUTF8.toList) := by
+  simp only [parseOpts, h, Bool.false_eq_true, if_false]
+  cases usizeOf x with
+  | some n => exact (parseOpts_goal_fixed r _ rfl).1
+  | none => exact (parseOpts_goal_fixed r _ rfl).1
+
+#print axioms C14_goal_first_arg
 #print axioms C14_options
 #print axioms C14_push
 #print axioms C14_same
+#print axioms C14_add
+#print axioms C14_repeated_refused
+#print axioms C14_needs_single_once
 
 end RQ.Args
